@@ -417,14 +417,14 @@ func (p *Pebble) getCeiling(key string) (returnedKey string, value []byte, close
 }
 
 func (p *Pebble) getLower(key string) (returnedKey string, value []byte, closer io.Closer, err error) {
-	it, err := p.db.NewIter(&pebble.IterOptions{
-		UpperBound: []byte(key),
-	})
+	// An empty upper bound would mean "no bound" for the iterator, while
+	// there is no key lower than the empty key: seek instead of bounding
+	it, err := p.db.NewIter(&pebble.IterOptions{})
 	if err != nil {
 		return "", nil, nil, err
 	}
 
-	if !it.Last() {
+	if !it.SeekLT([]byte(key)) {
 		return "", nil, nil, multierr.Combine(it.Close(), pebble.ErrNotFound)
 	}
 
